@@ -703,10 +703,14 @@ after `self.verif_broadcast(ConsensusMessage::Vote(vote));#1`
             assert(self.lo() == pre.lo());
             assert(self.inv_x(Some(slot)));
         }
-before `self.state_mut(slot).bad_window = true;#0`
+after `self.try_skip_window(slot, Ghost(Some(slot)));#0`
         let ghost g2 = *self;
-after `self.state_mut(slot).bad_window = true;#0`
+after `self.try_skip_window(slot, Ghost(Some(slot)));#1`
+        let ghost g3 = *self;
+blockend `Vote::new_notar_fallback(`
         proof {
+            // whatever the arm did after skipping the window: the slot must now be marked bad and nothing else changed
+            // [C05.fallback_vote_marks_slot_bad_so_no_finalize_follows]
             assert forall|t: Slot| #[trigger] self.st(t) == (if t == slot { SlotState { bad_window: true, ..g2.st(slot) } } else { g2.st(t) }) by {}
             assert(self.sent@ == g2.sent@ && self.lo() == g2.lo());
             assert(!g2.st(slot).retired);
@@ -717,10 +721,9 @@ after `self.state_mut(slot).bad_window = true;#0`
                 if i == pre.sent@.len() { assert(self.sent@[i] == base[i]); }
             }
         }
-before `self.state_mut(slot).bad_window = true;#1`
-        let ghost g3 = *self;
-after `self.state_mut(slot).bad_window = true;#1`
+blockend `Vote::new_skip_fallback(`
         proof {
+            // [C05.fallback_vote_marks_slot_bad_so_no_finalize_follows]
             assert forall|t: Slot| #[trigger] self.st(t) == (if t == slot { SlotState { bad_window: true, ..g3.st(slot) } } else { g3.st(t) }) by {}
             assert(self.sent@ == g3.sent@ && self.lo() == g3.lo());
             assert(!g3.st(slot).retired);
